@@ -237,13 +237,15 @@ def run(ctx):
     repo = os.path.realpath(os.environ.get('VERIF_REPO', '/repo'))
     if ctx.shard == 0:
         for t in HOSTILE:
-            for mode in ('verify', 'set_source', 'private', 'section'):
+            for mode in ('verify', 'set_source', 'private', 'section') + (('set_source-other-filename', 'verify-given-code-and-filename') if len(t) < 5000 else ()):
                 check_text(ctx, t, 'hostile', mode)
         # NUL / CR / FF / BOM inserted at every position of a short program
         base = 'x = 1\nif x:\n    print("a")\n'
         for ch in ('\x00', '\r', '\x0c', '\t', '﻿', '\xa0', '"', '(', '\\'):
             for pos in range(len(base) + 1):
                 check_text(ctx, base[:pos] + ch + base[pos:], 'hostile-insert', 'verify')
+                if ch in '\r\x0c\x00(':
+                    check_text(ctx, base[:pos] + ch + base[pos:], 'hostile-insert', 'verify-given-code-and-filename')
     files = corpus.corpus_files(max_bytes=ctx.pick(20000, 60000), repo=repo)
     mine = files[ctx.shard::ctx.nshards]
     rng.shuffle(mine)
